@@ -655,3 +655,110 @@ Example C04_nonvacuous_any_family :=
     4 w4 quarter 4 w4 quarter (kern_mult cmul ex_g) wone ex_env ex_garbage ex_stack
     mfull [mfull; mB] (fun _ => 2) 3 ex_garbage 1 2
     ex_over_ok ex_over_lt ltac:(lia) (weight_inv mfull (or_introl eq_refl)).
+
+(* ================================================================== round 4: hyper-parameter layers and kernel-name dispatch
+   (model/C04_Hyper_Model.v; tied to the current source by coq/gen_proofs/C04_GenProperties.v on every run) *)
+From Coq Require Import String.
+From QV.model Require Import C04_Hyper_Model.
+From QV.proof Require Import C04_Proofs_Hyper.
+
+(* the effective aberrations: override, else optimised, else construction value -- key by key, for ANY value type (the merge
+   cannot look at a value: an exact zero in a later layer replaces a non-zero earlier value like any other) *)
+Theorem C04_layer_priority :
+  forall (K V : Type) (init opt : dict K V) (ovr : option (dict K V)) (k : K),
+    merge_layers init opt ovr k = layer_lookup init opt ovr k.
+Proof. exact merge_layers_priority. Qed.
+Print Assumptions C04_layer_priority.
+
+Theorem C04_override_value_in_force :
+  forall (K V : Type) (init opt o : dict K V) (k : K) (v : V),
+    o k = Some v -> merge_layers init opt (Some o) k = Some v.
+Proof. exact merge_override_wins. Qed.
+Print Assumptions C04_override_value_in_force.
+
+Theorem C04_untouched_key_keeps_construction_value :
+  forall (K V : Type) (init opt : dict K V) (ovr : option (dict K V)) (k : K),
+    (match ovr with Some o => o k | None => None end) = None -> opt k = None ->
+    merge_layers init opt ovr k = init k.
+Proof. exact merge_untouched_key. Qed.
+Print Assumptions C04_untouched_key_keeps_construction_value.
+
+(* the merge commutes with any relabelling of the values (it is natural in V): no value-dependent behaviour *)
+Theorem C04_layer_merge_value_blind :
+  forall (K V W : Type) (f : V -> W) (init opt : dict K V) (ovr : option (dict K V)) (k : K),
+    option_map f (merge_layers init opt ovr k) =
+    merge_layers (fun x => option_map f (init x)) (fun x => option_map f (opt x))
+                 (option_map (fun o x => option_map f (o x)) ovr) k.
+Proof. exact (fun K V W f => merge_layers_natural K V W f). Qed.
+Print Assumptions C04_layer_merge_value_blind.
+
+(* a reconstruction that reads its aberrations through lookups only is the function of the EFFECTIVE hyper-parameters:
+   layered object = fresh object constructed with the effective values; equal effective values, equal results *)
+Theorem C04_effective_hyperparameters :
+  forall (K V Res : Type) (rec : dict K V -> V -> Res) (zero : V),
+    (forall d d' r, dict_eq d d' -> rec d r = rec d' r) ->
+    forall (init : dict K V) (irot : option V) (opt : dict K V) (orot : option V) (ovr : option (dict K V)) (ovrrot : option V),
+      layered_call rec zero init irot opt orot ovr ovrrot =
+      fresh_call rec zero (merge_layers init opt ovr) (eff_rotation ovrrot orot irot zero).
+Proof. exact layered_is_fresh_effective. Qed.
+Print Assumptions C04_effective_hyperparameters.
+
+Theorem C04_same_effective_same_result :
+  forall (K V Res : Type) (rec : dict K V -> V -> Res) (zero : V),
+    (forall d d' r, dict_eq d d' -> rec d r = rec d' r) ->
+    forall init irot opt orot ovr ovrrot init' irot' opt' orot' ovr' ovrrot',
+      dict_eq (merge_layers init opt ovr) (merge_layers init' opt' ovr') ->
+      eff_rotation ovrrot orot irot zero = eff_rotation ovrrot' orot' irot' zero ->
+      layered_call rec zero init irot opt orot ovr ovrrot = layered_call rec zero init' irot' opt' orot' ovr' ovrrot'.
+Proof. exact same_effective_same_result. Qed.
+Print Assumptions C04_same_effective_same_result.
+
+(* dropping the vanishing entries of every layer BEFORE the merge is a different function (refuted by a witness);
+   dropping them AFTER the merge is invisible to a reader for which an absent key means zero *)
+Definition C04_pruned_layers_statement : Prop :=
+  forall (init opt : dict nat Z) (ovr : option (dict nat Z)) (k : nat),
+    merge_layers_pruned (Z.eqb 0) init opt ovr k = d_prune (Z.eqb 0) (merge_layers init opt ovr) k.
+Theorem C04_pruned_layers_refuted : ~ C04_pruned_layers_statement.
+Proof.
+  intro H. destruct pruned_merge_differs as (init & opt & ovr & k & H1 & H2).
+  specialize (H init opt ovr k). rewrite H2 in H. unfold d_prune in H. rewrite H1 in H. discriminate H.
+Qed.
+Print Assumptions C04_pruned_layers_refuted.
+
+Theorem C04_prune_after_merge_harmless :
+  forall (K V : Type) (is_zero : V -> bool) (zero : V), (forall v, is_zero v = true -> v = zero) ->
+    forall (d : dict K V) (k : K),
+      match d_prune is_zero d k with Some v => v | None => zero end = match d k with Some v => v | None => zero end.
+Proof. exact prune_after_merge_harmless. Qed.
+Print Assumptions C04_prune_after_merge_harmless.
+
+(* kernel names: the normalisation ends in one of the five kernels and is idempotent; the dispatch is consistent *)
+Theorem C04_kernel_name_canonical :
+  forall (lower : string -> string) (k c : string),
+    normalize_kernel lower k = Some c -> In c canonical_kernels /\ slookup c kernel_aliases = Some c.
+Proof. exact (fun lower k c H => conj (normalize_kernel_canonical lower k c H) (normalize_kernel_idempotent lower k c H)). Qed.
+Print Assumptions C04_kernel_name_canonical.
+
+Theorem C04_kernel_dispatch_consistent :
+  forall c, In c canonical_kernels ->
+    returns_power c = two_pass c /\
+    (two_pass c = true -> kernel_branch c = BrGamma) /\
+    (ssb_divides c = true -> kernel_branch c = BrGamma /\ two_pass c = false) /\
+    (kernel_branch c = BrPrlx <-> c = "prlx"%string) /\ (kernel_branch c = BrIcom <-> c = "icom"%string).
+Proof. exact dispatch_consistent. Qed.
+Print Assumptions C04_kernel_dispatch_consistent.
+
+Example C04_nonvacuous_layers :
+  merge_layers (of_alist [(0%nat, 150%Z)]) d_empty (Some (of_alist [(0%nat, 0%Z)])) 0%nat = Some 0%Z /\
+  merge_layers (of_alist [(0%nat, 150%Z)]) (of_alist [(0%nat, 0%Z); (2%nat, 4%Z)]) None 0%nat = Some 0%Z /\
+  merge_layers (of_alist [(0%nat, 150%Z)]) (of_alist [(2%nat, 4%Z)]) (Some (of_alist [(2%nat, 0%Z)])) 0%nat = Some 150%Z /\
+  eff_rotation (Some 0%Z) (Some 3%Z) (Some 1%Z) 0%Z = 0%Z.
+Proof. repeat split; reflexivity. Qed.
+Example C04_nonvacuous_effective :=
+  C04_effective_hyperparameters nat Z (option Z * Z) (fun d r => (d 0%nat, r)) 0%Z
+    (fun d d' r H => f_equal (fun x => (x, r)) (H 0%nat))
+    (of_alist [(0%nat, 150%Z)]) (Some 2%Z) d_empty None (Some (of_alist [(0%nat, 0%Z)])) (Some 0%Z).
+Example C04_nonvacuous_kernel_names :
+  normalize_kernel (fun s => s) "tilt-corrected-bright-field" = Some "prlx"%string /\
+  normalize_kernel (fun s => s) "SSB" = None /\ two_pass "mf" = true /\ two_pass "ssb" = false.
+Proof. repeat split; reflexivity. Qed.
